@@ -100,6 +100,50 @@ def interp_run(model_bytes, timeout=30):
   return data.decode() or "abort:no report"
 
 
+def run_fixture(fix, scn, info):
+  """A real .tflite file quantized with a shipped recipe file (unchanged) and injected generic statistics."""
+  import numpy as np
+  pipeline = _W["pipeline"]
+  from ai_edge_quantizer import quantizer
+  model = open(fix["model"], "rb").read()
+  impl = {"in_bytes": model, "info": info, "out_bytes": None, "exc": None}
+  q = quantizer.Quantizer(model, fix["recipe"])
+  try:
+    cal = None
+    if q.need_calibration:
+      cal, k = {}, 0
+      for si, sub in enumerate(scn["subs"]):
+        for t, r in enumerate(sub["trole"]):
+          if r == "act":
+            sh = (1,) * len(info["shapes"][si][t])
+            cal[info["names"][si][t]] = {"min": np.full(sh, -(1.3125 + 0.375 * k), np.float32), "max": np.full(sh, 0.5625 + 0.21875 * k, np.float32)}
+            k += 1
+    out = q.quantize(cal)
+    impl["outcome"], impl["why"], impl["out_bytes"] = "done", "none", bytes(out.quantized_model)
+  except Exception as e:  # pylint: disable=broad-except
+    impl["outcome"], impl["why"], impl["exc"] = "raised", pipeline.classify_exception(e), e
+  return impl
+
+
+def fixture_items(interp):
+  """(items, scenarios): every model under tests/models that is a float model in converter normal form x every recipe file."""
+  import glob
+  from harness import extract  # pylint: disable=g-import-not-at-top
+  items = []
+  mdir = os.path.join(common.REPO, "ai_edge_quantizer/tests/models")
+  rdir = os.path.join(common.REPO, "ai_edge_quantizer/recipes")
+  for mp in sorted(glob.glob(os.path.join(mdir, "*.tflite"))):
+    mb = open(mp, "rb").read()
+    for rp in sorted(glob.glob(os.path.join(rdir, "*.json"))):
+      try:
+        scn, info = extract.extract(mb, json.load(open(rp)))
+      except Exception:  # pylint: disable=broad-except
+        continue            # not expressible in the specification's vocabulary (already quantized, BMM of two activations, ...)
+      items.append(dict(scn=scn, info=info, fixture={"model": mp, "recipe": rp}, dump=None, seed=0, interp=interp,
+                        tag="fixture:%s:%s" % (os.path.basename(mp), os.path.basename(rp))))
+  return items
+
+
 def _task(item):
   """item = dict(scn, dump|None, seed, interp: bool, stats)."""
   pipeline, project, synth = _W["pipeline"], _W["project"], _W["synth"]
@@ -107,7 +151,10 @@ def _task(item):
   out = {"key": synth.scn_key(scn), "diffs": None, "obs": None, "interp": None, "unreal": None, "outcome": None,
          "why": None, "tag": item.get("tag", "")}
   try:
-    impl = pipeline.run_impl(scn, seed=item.get("seed", 0))
+    if item.get("fixture"):
+      impl = run_fixture(item["fixture"], scn, item["info"])
+    else:
+      impl = pipeline.run_impl(scn, seed=item.get("seed", 0))
   except synth.Unrealisable as e:
     out["unreal"] = str(e)
     return out
